@@ -325,7 +325,8 @@ class Statement(object):
 
         if self.code_pkg.additional_needs_resolution:
             if self.operand.is_indexed() and self.operand.left and self.operand.left.is_address_expression():
-                relative_address = self.operand.left.calculate_address_offset(statements).int
+                target = self.operand.left.calculate_address_offset(statements)
+                relative_address = -target.int if target.is_negative() else target.int
             else:
                 relative_address = statements[self.code_pkg.additional.int].code_pkg.address.int
 
